@@ -99,3 +99,309 @@ Qed.
 Example bsearch_example :
   bsearch 6 [9;9; 1;4;6;8;11] 2 0 4 8 = Some (Some 3) /\ bsearch 6 [9;9; 1;4;6;8;11] 2 0 4 7 = Some None.
 Proof. vm_compute. split; reflexivity. Qed.
+
+(* ================================================================== round 2 *)
+Lemma chk_ok : forall k len, 0 <= k < len -> chk k len = Some tt.
+Proof. intros. unfold chk. replace (inb k len) with true by (symmetry; apply inb_true; lia). reflexivity. Qed.
+
+Lemma zrange_cons : forall lo hi, lo < hi -> zrange lo hi = lo :: zrange (lo + 1) hi.
+Proof.
+  intros lo hi H. unfold zrange. replace (Z.to_nat (hi - lo)) with (S (Z.to_nat (hi - (lo + 1)))) by lia.
+  reflexivity.
+Qed.
+
+(* ------------------------------------------------------------------ reduction_transfer *)
+Theorem rt_safe : forall ii jj idx count x ulen vlen clen,
+  kernel_pre_rt ii jj idx count x ulen vlen clen = true ->
+  reduction_transfer ii jj idx count x ulen vlen clen <> None.
+Proof.
+  intros ii jj idx count x ulen vlen clen Hp. unfold kernel_pre_rt in Hp.
+  apply andb_prop in Hp. destruct Hp as [Hj Hi]. unfold reduction_transfer.
+  destruct (foldM_inv _ _ (fun _ : unit => True) (fun i => In i ii)
+              (rt_row jj idx count x ulen vlen clen) ii tt I) as [r [E _]].
+  - apply Forall_forall. auto.
+  - intros [] i _ Hin. apply (forallb_In _ _ _ _ Hi) in Hin.
+    apply andb_prop in Hin. destruct Hin as [Hu Hrow]. apply inb_true in Hu. unfold rt_row.
+    destruct (rd x i) as [j1|]; [|discriminate]. destruct (rd count i) as [c|]; [|discriminate].
+    destruct (rd idx i) as [s|]; [|discriminate]. cbn [bind].
+    unfold inb in Hrow. assert (Hj1 : 0 <= j1 < vlen) by lia.
+    destruct (foldM_inv _ _ (fun _ : unit => True) (fun k => 0 <= k < c)
+                (rt_cand jj vlen clen s j1) (zrange 0 c) tt I) as [r' [E' _]].
+    + apply Forall_forall. intros k Hk. apply In_zrange in Hk. lia.
+    + intros [] k _ Hk. unfold rt_cand. destruct (rd_ok _ jj k ltac:(lia)) as [jt Ejt]. rewrite Ejt. cbn [bind].
+      destruct (jt =? j1); [exists tt; auto|].
+      rewrite chk_ok by lia. cbn [bind]. apply rd_some in Ejt. destruct Ejt as [_ Ijt].
+      apply (forallb_In _ _ _ _ Hj) in Ijt. apply inb_true in Ijt. rewrite chk_ok by lia. exists tt; auto.
+    + rewrite E'. cbn [bind]. rewrite chk_ok by lia. cbn [bind]. rewrite chk_ok by lia. exists tt; auto.
+  - rewrite E. discriminate.
+Qed.
+
+Example rt_pre_example :
+  kernel_pre_rt [0; 2] [1; 2; 0; 2] [0; 2; 3] [2; 1; 1] [1; 0; 2] 3 3 4 = true /\
+  reduction_transfer [0; 2] [1; 2; 0; 2] [0; 2; 3] [2; 1; 1] [1; 0; 2] 3 3 4 = Some tt.
+Proof. vm_compute. split; reflexivity. Qed.
+
+(* ------------------------------------------------------------------ augmenting_row_reduction, all reads *)
+Section Arr.
+Variables (n n_i : Z) (jj idx count : list Z) (vlen clen xlen ylen : Z).
+
+Definition rowok (i : Z) : Prop :=
+  exists s c, rd idx i = Some s /\ rd count i = Some c /\ 0 <= s /\ 1 <= c /\ s + c <= zlen jj /\ s + c <= clen.
+
+Hypothesis Hjj : Forall (fun j => 0 <= j < ylen /\ j < vlen) jj.
+Hypothesis Hnx : n <= xlen.
+
+Definition AI (s : arrst) : Prop :=
+  0 <= a_nfree s <= a_k s /\ a_k s <= n_i /\ zlen (a_ii s) = n_i /\ n_i <= zlen (a_free s) /\
+  zlen (a_x s) = xlen /\ zlen (a_y s) = ylen /\
+  Forall (fun i => 0 <= i < n /\ rowok i) (a_ii s) /\
+  Forall (fun r => r = n \/ (0 <= r < n /\ rowok r)) (a_y s).
+
+Definition good (o : option Z) : Prop := match o with Some j => 0 <= j < ylen /\ j < vlen | None => True end.
+
+Lemma arr_scan_ok : forall base ks os j1 j2,
+  (forall k, In k ks -> 0 <= base + k < zlen jj /\ base + k < clen) -> good j1 -> good j2 ->
+  exists j1' j2', arr_scan jj vlen clen base ks os j1 j2 = Some (j1', j2') /\ good j1' /\ good j2' /\
+    (j1 <> None -> j1' <> None) /\ (j1 <> None -> j2 <> None -> j2' <> None).
+Proof.
+  induction ks as [|k kt IH]; intros os j1 j2 Hk G1 G2.
+  - exists j1, j2. cbn. repeat split; auto.
+  - destruct os as [|o ot]; [exists j1, j2; cbn; repeat split; auto|]. cbn [arr_scan].
+    destruct (Hk k (or_introl eq_refl)) as [Hr Hc].
+    destruct (rd_ok _ jj (base + k) Hr) as [j Ej]. rewrite Ej. cbn [bind].
+    rewrite chk_ok by lia. cbn [bind]. apply rd_some in Ej. destruct Ej as [_ Ij].
+    rewrite Forall_forall in Hjj. pose proof (Hjj j Ij) as Gj. rewrite chk_ok by lia. cbn [bind].
+    assert (Hk' : forall k0, In k0 kt -> 0 <= base + k0 < zlen jj /\ base + k0 < clen) by (intros; apply Hk; right; assumption).
+    destruct o.
+    + destruct (IH ot (Some j) j1 Hk' Gj G1) as (a & b & E & Ga & Gb & K1 & K2).
+      exists a, b. repeat split; auto. intros N1. apply K1. discriminate.
+      intros N1 N2. apply K2; [discriminate|assumption].
+    + destruct (IH ot j1 (Some j) Hk' G1 Gj) as (a & b & E & Ga & Gb & K1 & K2).
+      exists a, b. repeat split; auto. intros N1 N2. apply K2; [assumption|discriminate].
+    + destruct (IH ot j1 j2 Hk' G1 G2) as (a & b & E & Ga & Gb & K1 & K2).
+      exists a, b. repeat split; auto.
+Qed.
+
+(* with an oracle that finite costs allow: j1 is assigned, and j2 too unless the row is strict *)
+Lemma arr_scan_row : forall base cnt os strict,
+  row_oracle_ok cnt (os, strict) = true -> 0 <= base -> 1 <= cnt -> base + cnt <= zlen jj -> base + cnt <= clen ->
+  exists j1 j2, arr_scan jj vlen clen base (zrange 0 cnt) os None None = Some (Some j1, j2) /\
+    (0 <= j1 < ylen /\ j1 < vlen) /\ good j2 /\ (strict = false -> j2 <> None).
+Proof.
+  intros base cnt os strict Ho Hb Hc Hj Hcl. unfold row_oracle_ok in Ho. cbn [fst snd] in Ho.
+  apply andb_prop in Ho. destruct Ho as [Hlen Hpat].
+  assert (Hin : forall lo k, 0 <= lo -> In k (zrange lo cnt) -> 0 <= base + k < zlen jj /\ base + k < clen).
+  { intros lo k Hlo Hk. apply In_zrange in Hk. lia. }
+  destruct os as [|o1 ot]; [discriminate|]. destruct o1; try discriminate.
+  rewrite (zrange_cons 0 cnt) by lia. cbn [arr_scan].
+  destruct (rd_ok _ jj (base + 0) ltac:(lia)) as [ja Eja]. rewrite Eja. cbn [bind].
+  rewrite chk_ok by lia. cbn [bind]. apply rd_some in Eja. destruct Eja as [_ Ija].
+  pose proof Hjj as Hjj'. rewrite Forall_forall in Hjj'. pose proof (Hjj' ja Ija) as Ga.
+  rewrite chk_ok by lia. cbn [bind].
+  destruct ot as [|o2 ot2].
+  - (* single candidate: strict *)
+    assert (cnt = 1) by (unfold zlen in Hlen; cbn [length] in Hlen; lia). subst cnt.
+    cbn. exists ja, None. repeat split; try lia; auto.
+  - assert (2 <= cnt) by (unfold zlen in Hlen; cbn [length] in Hlen; lia).
+    rewrite (zrange_cons (0 + 1) cnt) by lia. cbn [arr_scan].
+    destruct (rd_ok _ jj (base + (0 + 1)) ltac:(lia)) as [jb Ejb]. rewrite Ejb. cbn [bind].
+    rewrite chk_ok by lia. cbn [bind]. apply rd_some in Ejb. destruct Ejb as [_ Ijb].
+    pose proof (Hjj' jb Ijb) as Gb. rewrite chk_ok by lia. cbn [bind].
+    destruct o2; try discriminate.
+    + destruct (arr_scan_ok base (zrange (0 + 1 + 1) cnt) ot2 (Some jb) (Some ja)) as (a & b & E & GA & GB & K1 & K2); auto.
+      { intros k Hk. apply (Hin (0 + 1 + 1)); [lia|assumption]. }
+      destruct a as [a|]; [|exfalso; apply K1; [discriminate|reflexivity]].
+      exists a, b. split; [exact E|]. split; [exact GA|]. split; [exact GB|].
+      intros _. apply K2; discriminate.
+    + destruct (arr_scan_ok base (zrange (0 + 1 + 1) cnt) ot2 (Some ja) (Some jb)) as (a & b & E & GA & GB & K1 & K2); auto.
+      { intros k Hk. apply (Hin (0 + 1 + 1)); [lia|assumption]. }
+      destruct a as [a|]; [|exfalso; apply K1; [discriminate|reflexivity]].
+      exists a, b. split; [exact E|]. split; [exact GA|]. split; [exact GB|].
+      intros _. apply K2; discriminate.
+Qed.
+
+Lemma Forall_upd' : forall A (P : A -> Prop) (a : list A) k v, Forall P a -> P v -> Forall P (upd a k v).
+Proof.
+  intros A P a k v Ha Hv. apply Forall_forall. intros x Hx. apply In_upd in Hx.
+  destruct Hx as [->|Hx]; [assumption|]. rewrite Forall_forall in Ha. auto.
+Qed.
+
+Lemma rd_Forall : forall (P : Z -> Prop) (a : list Z) k v, Forall P a -> rd a k = Some v -> P v.
+Proof. intros P a k v Ha Hr. apply rd_some in Hr. destruct Hr as [_ Hin]. rewrite Forall_forall in Ha. auto. Qed.
+
+Lemma arr_iter_ok : forall s o, AI s -> a_k s < n_i ->
+  exists r, arr_iter n jj idx count vlen clen s o = Some r /\ match r with Some s' => AI s' | None => True end.
+Proof.
+  intros s [os strict] (Hnf & Hk & Lii & Lfr & Lx & Ly & Fii & Fy) Hlt. unfold arr_iter.
+  destruct (rd_ok _ (a_ii s) (a_k s) ltac:(lia)) as [i Ei]. rewrite Ei. cbn [bind].
+  pose proof (rd_Forall _ _ _ _ Fii Ei) as [Ri (sg & c & Es & Ec & Hs0 & Hc1 & Hsj & Hsc)].
+  rewrite Ec, Es. cbn [bind].
+  destruct (row_oracle_ok c (os, strict)) eqn:Eo; cbn [negb]; [|exists None; split; [reflexivity|exact I]].
+  destruct (arr_scan_row sg c os strict Eo Hs0 Hc1 Hsj Hsc) as (j1 & j2 & Esc & G1 & G2 & Hj2). rewrite Esc.
+  cbn [bind use].
+  destruct (rd_ok _ (a_y s) j1 ltac:(lia)) as [i1 Ei1]. rewrite Ei1. cbn [bind].
+  pose proof (rd_Forall _ _ _ _ Fy Ei1) as Hi1.
+  (* the pair (column, its row) after the tie handling *)
+  assert (Sel : exists j1' i1',
+     (if strict then do _ <- chk j1 vlen; Some (j1, i1)
+      else if negb (i1 =? n) then do j2' <- use j2; do i2 <- rd (a_y s) j2'; Some (j2', i2) else Some (j1, i1))
+     = Some (j1', i1') /\ (0 <= j1' < ylen) /\ (i1' = n \/ (0 <= i1' < n /\ rowok i1'))).
+  { destruct strict.
+    - rewrite chk_ok by lia. cbn [bind]. exists j1, i1. repeat split; auto; lia.
+    - destruct (negb (i1 =? n)); [|exists j1, i1; repeat split; auto; lia].
+      destruct j2 as [j2|]; [|exfalso; apply Hj2; reflexivity]. cbn [use bind].
+      cbn [good] in G2. destruct (rd_ok _ (a_y s) j2 ltac:(lia)) as [i2 Ei2]. rewrite Ei2. cbn [bind].
+      exists j2, i2. repeat split; try lia. exact (rd_Forall _ _ _ _ Fy Ei2). }
+  destruct Sel as (j1' & i1' & Esel & Rj1' & Ri1'). rewrite Esel. cbn [bind].
+  assert (S1 : exists s1,
+     (if negb (i1' =? n) then
+        if strict then do ii' <- wr (a_ii s) (a_k s + 1 - 1) i1';
+                       Some (mkarrst (a_k s + 1 - 1) (a_nfree s) ii' (a_free s) (a_x s) (a_y s))
+        else do f' <- wr (a_free s) (a_nfree s) i1';
+             Some (mkarrst (a_k s + 1) (a_nfree s + 1) (a_ii s) f' (a_x s) (a_y s))
+      else Some (mkarrst (a_k s + 1) (a_nfree s) (a_ii s) (a_free s) (a_x s) (a_y s))) = Some s1 /\
+     AI s1 /\ a_x s1 = a_x s /\ a_y s1 = a_y s).
+  { destruct (negb (i1' =? n)) eqn:En.
+    - assert (Hrow : 0 <= i1' < n /\ rowok i1') by (destruct Ri1' as [->|H]; [lia|exact H]).
+      destruct strict.
+      + destruct (wr_ok _ (a_ii s) (a_k s + 1 - 1) i1' ltac:(lia)) as [ii' [Ew Lw]]. rewrite Ew. cbn [bind].
+        apply wr_some in Ew. destruct Ew as (_ & -> & _).
+        eexists; split; [reflexivity|]. split; [|split; reflexivity].
+        unfold AI; cbn [a_k a_nfree a_ii a_free a_x a_y]. rewrite zlen_upd.
+        repeat split; auto; try lia. apply Forall_upd'; assumption.
+      + destruct (wr_ok _ (a_free s) (a_nfree s) i1' ltac:(lia)) as [f' [Ew Lw]]. rewrite Ew. cbn [bind].
+        eexists; split; [reflexivity|]. split; [|split; reflexivity].
+        unfold AI; cbn [a_k a_nfree a_ii a_free a_x a_y]. repeat split; auto; lia.
+    - eexists; split; [reflexivity|]. split; [|split; reflexivity].
+      unfold AI; cbn [a_k a_nfree a_ii a_free a_x a_y]. repeat split; auto; lia. }
+  destruct S1 as (s1 & E1 & (Hnf1 & Hk1 & Lii1 & Lfr1 & Lx1 & Ly1 & Fii1 & Fy1) & Ex1 & Ey1). rewrite E1. cbn [bind].
+  destruct (wr_ok _ (a_x s1) i j1' ltac:(lia)) as [x' [Ewx Lwx]]. rewrite Ewx. cbn [bind].
+  destruct (wr_ok _ (a_y s1) j1' i ltac:(lia)) as [y' [Ewy Lwy]]. rewrite Ewy. cbn [bind].
+  apply wr_some in Ewy. destruct Ewy as (_ & -> & _).
+  eexists; split; [reflexivity|]. unfold AI; cbn [a_k a_nfree a_ii a_free a_x a_y]. rewrite zlen_upd.
+  repeat split; auto; try lia. apply Forall_upd'; [assumption|]. right. split; [lia|].
+  exists sg, c. repeat split; auto.
+Qed.
+
+Lemma arr_run_ok : forall oracle s, AI s -> exists s', arr_run n n_i jj idx count vlen clen oracle s = Some s' /\ AI s'.
+Proof.
+  induction oracle as [|o t IH]; intros s Hs; cbn [arr_run]; [eauto|].
+  destruct (a_k s <? n_i) eqn:E; [|eauto].
+  destruct (arr_iter_ok s o Hs ltac:(lia)) as [r [Er Hr]]. rewrite Er. cbn [bind].
+  destruct r as [s'|]; [apply IH; exact Hr|eauto].
+Qed.
+
+End Arr.
+
+Lemma ragged_rowok : forall rows idx count jjlen clen i jj, zlen jj = jjlen ->
+  ragged_ok rows idx count jjlen clen = true -> In i rows -> rowok jj idx count clen i.
+Proof.
+  intros rows idx count jjlen clen i jj Hl Hr Hin. unfold ragged_ok in Hr.
+  apply (forallb_In _ _ _ _ Hr) in Hin. unfold rowok.
+  destruct (rd idx i) as [s|]; [|lia]. destruct (rd count i) as [c|]; [|lia].
+  exists s, c. repeat split; auto; lia.
+Qed.
+
+Lemma fold_max_ge : forall l x, In x l -> x <= fold_right Z.max 0 l.
+Proof.
+  induction l as [|a t IH]; intros x Hx; [destruct Hx|]. cbn [fold_right]. destruct Hx as [->|H]; [lia|].
+  specialize (IH x H). lia.
+Qed.
+
+(* the whole kernel with all its reads: every oracle (entries that finite costs cannot produce cut
+   the run), every number of iterations *)
+Theorem arr_full_safe : forall oracle n ii jj idx count x y ulen vlen clen,
+  kernel_pre_arr n ii jj idx count y (zlen x) ulen vlen clen = true ->
+  arr_run n (zlen ii) jj idx count vlen clen oracle (arr_init ii x y) <> None.
+Proof.
+  intros oracle n ii jj idx count x y ulen vlen clen Hp. unfold kernel_pre_arr in Hp. cbv zeta in Hp.
+  repeat (apply andb_prop in Hp; let H := fresh "C" in destruct Hp as [Hp H]).
+  (* C: last conjunct first *)
+  destruct (arr_run_ok n (zlen ii) jj idx count vlen clen (zlen x) (zlen y)) with (oracle := oracle) (s := arr_init ii x y)
+    as [s' [E _]].
+  - apply Forall_forall. intros j Hj. apply (forallb_In _ _ _ _ C5) in Hj. unfold inb in Hj. lia.
+  - lia.
+  - unfold AI, arr_init; cbn [a_k a_nfree a_ii a_free a_x a_y].
+    pose proof (zlen_nonneg _ ii). unfold kernel_pre_arr_free in Hp.
+    assert (Hm : 0 <= fold_right Z.max 0 y) by (clear; induction y; cbn; lia).
+    repeat split; try lia.
+    + unfold zlen at 2. rewrite repeat_length. lia.
+    + apply Forall_forall. intros i Hi. split.
+      * apply (forallb_In _ _ _ _ C6) in Hi. apply inb_true in Hi. exact Hi.
+      * eapply ragged_rowok; [reflexivity|exact C7|exact Hi].
+    + apply Forall_forall. intros r Hr. pose proof (forallb_In _ _ _ _ C4 Hr) as Hr4.
+      destruct (Z.eq_dec r n) as [->|Hne]; [left; reflexivity|]. right. split; [lia|].
+      eapply ragged_rowok; [reflexivity|exact C|]. apply filter_In. split; [assumption|lia].
+  - rewrite E. discriminate.
+Qed.
+
+(* ------------------------------------------------------------------ augment, closing loop *)
+Lemma sorted_seg : forall jj s c, row_sorted jj s c = true ->
+  forall p q, 0 <= p < q -> q < c -> seg jj s p < seg jj s q.
+Proof.
+  intros jj s c Hs p q Hp Hq. unfold row_sorted in Hs.
+  assert (Step : forall k, 0 <= k < c - 1 -> seg jj s k < seg jj s (k + 1)).
+  { intros k Hk. assert (Hin : In k (zrange 0 (c - 1))) by (apply In_zrange; lia).
+    apply (forallb_In _ _ _ _ Hs) in Hin. unfold seg. replace (s + (k + 1)) with (s + k + 1) by lia.
+    destruct (rd jj (s + k)); [|discriminate]. destruct (rd jj (s + k + 1)); [|discriminate]. lia. }
+  assert (Gen : forall d, (0 <= Z.of_nat d) -> p + 1 + Z.of_nat d < c -> seg jj s p < seg jj s (p + 1 + Z.of_nat d)).
+  { induction d as [|d IH]; intros _ Hd.
+    - replace (p + 1 + Z.of_nat 0) with (p + 1) by lia. apply Step. lia.
+    - assert (seg jj s p < seg jj s (p + 1 + Z.of_nat d)) by (apply IH; lia).
+      pose proof (Step (p + 1 + Z.of_nat d) ltac:(lia)).
+      replace (p + 1 + Z.of_nat (S d)) with (p + 1 + Z.of_nat d + 1) by lia. lia. }
+  replace q with (p + 1 + Z.of_nat (Z.to_nat (q - p - 1))) by lia. apply Gen; lia.
+Qed.
+
+(* when every row is strictly increasing and the assignment x[i] is listed in row i, the closing
+   loop of augment finds every x[i] and reads c / v / u in range; fuel above the longest row *)
+Theorem aug_final_safe : forall fuel n jj idx count x ulen vlen clen,
+  rows_ok n jj idx count clen = true -> n <= zlen x -> n <= ulen ->
+  (forall i, 0 <= i < n -> match rd x i, rd idx i, rd count i with
+                           | Some j, Some s, Some c => row_has jj s c j = true /\ 0 <= j < vlen /\ c < Z.of_nat fuel
+                           | _, _, _ => False end) ->
+  aug_final fuel n jj idx count x ulen vlen clen <> None.
+Proof.
+  intros fuel n jj idx count x ulen vlen clen Hr Hx Hu Hrow. unfold aug_final.
+  unfold rows_ok in Hr. apply andb_prop in Hr. destruct Hr as [Hr Hrows].
+  destruct (foldM_inv _ _ (fun _ : unit => True) (fun i => 0 <= i < n)
+              (aug_final_row fuel jj idx count x ulen vlen clen) (zrange 0 n) tt I) as [r [E _]].
+  - apply Forall_forall. intros i Hi. apply In_zrange in Hi. lia.
+  - intros [] i _ Hi. unfold aug_final_row. specialize (Hrow i Hi).
+    assert (Hin : In i (zrange 0 n)) by (apply In_zrange; lia).
+    apply (forallb_In _ _ _ _ Hrows) in Hin.
+    destruct (rd x i) as [j|]; [|contradiction]. destruct (rd idx i) as [s|]; [|contradiction].
+    destruct (rd count i) as [c|]; [|contradiction]. cbn [bind]. destruct Hrow as (Hhas & Hj & Hf).
+    assert (Hs0 : 0 <= s) by lia. assert (Hc1 : 1 <= c) by lia.
+    assert (Hsj : s + c <= zlen jj) by lia. assert (Hsc : s + c <= clen) by lia.
+    assert (Hsort : row_sorted jj s c = true) by lia.
+    unfold row_has in Hhas. apply existsb_exists in Hhas. destruct Hhas as [k [Hk Hkv]].
+    apply In_zrange in Hk.
+    destruct (bsearch_finds fuel jj s 0 (c - 1) j c Hs0 Hsj ltac:(lia) ltac:(lia) (sorted_seg jj s c Hsort))
+      as [m (Em & Sm & Rm)].
+    + exists k. split; [lia|]. unfold seg. destruct (rd jj (s + k)); [lia|discriminate].
+    + lia.
+    + rewrite Em. cbn [bind]. rewrite chk_ok by lia. cbn [bind]. rewrite chk_ok by lia. cbn [bind].
+      rewrite chk_ok by lia. exists tt; auto.
+  - rewrite E. discriminate.
+Qed.
+
+(* ------------------------------------------------------------------ the counting argument of augment's
+   scratch lists (to_do with on_to_do, scan with done, ready with done): a list of columns below n
+   that all carry the current row's mark, duplicate-free, has room for one more column that does NOT
+   carry the mark — so `p_to_do[n_to_do] = j`, `p_scan[up] = j`, `p_ready[n_ready] = j1` are inside
+   their n-entry arrays as long as the marks are kept (set on every push, compared before it). *)
+From Centro Require Proofs.GraphC19Safe.
+
+Theorem marked_list_capacity : forall (n i j : Z) (mark : Z -> Z) (l : list Z),
+  0 <= n -> NoDup l -> (forall x, In x l -> 0 <= x < n /\ mark x = i) -> 0 <= j < n -> mark j <> i ->
+  zlen l < n /\ NoDup (j :: l).
+Proof.
+  intros n i j mark l Hn Hnd Hl Hj Hm.
+  assert (Nin : ~ In j l) by (intros Hin; apply Hl in Hin; lia).
+  assert (Nd : NoDup (j :: l)) by (constructor; assumption).
+  split; [|exact Nd].
+  assert (Fr : Forall (fun v => 0 <= v < n) (j :: l)).
+  { constructor; [assumption|]. apply Forall_forall. intros x Hx. apply Hl in Hx. lia. }
+  pose proof (GraphC19Safe.nodup_bound _ n Hn Nd Fr) as B. unfold zlen in *. cbn [length] in B. lia.
+Qed.
